@@ -32,9 +32,12 @@ def _surface(cx, sp, ssu, ssv, tess=None):
     return obj, info
 
 
-def h_geometry(cx, sp, ssu, ssv, spacing, tess):
+def h_geometry(cx, sp, ssu, ssv, spacing, tess, subrange=False):
     obj, info = _surface(cx, sp, ssu, ssv, tess)
     kw = {} if tess == 'quad' else {'vertex_spacing': spacing}
+    if subrange:
+        # the documented partial evaluation was used before: the cached sample grid covers a sub-range only
+        obj.evaluate(start_u=F(1, 4), stop_u=F(3, 4), start_v=F(1, 2))
     obj.tessellate(**kw)
     V, Fc = obj.vertices, obj.faces
     nu, nv = (ssu - 1) // spacing + 1, (ssv - 1) // spacing + 1
@@ -49,7 +52,7 @@ def h_geometry(cx, sp, ssu, ssv, spacing, tess):
         cx.check('face_arity[%d]' % k, len(f.vertices) == per)
         cx.check('face_refs_existing[%d]' % k, all(id(x) in vset for x in f.vertices))
         cx.check('face_ids_in_range[%d]' % k, all(0 <= i < len(V) for i in f.data), str(f.data))
-    if tess == 'quad':
+    if tess == 'quad' and not subrange:
         # quad vertices carry positions only: they are the sampled grid points
         ev = obj.evalpts
         for k, v in enumerate(V):
@@ -58,6 +61,8 @@ def h_geometry(cx, sp, ssu, ssv, spacing, tess):
     su, sv = info['sizes']
     for k, v in enumerate(V):
         i, j = divmod(k, nv)
+        if tess == 'quad':
+            spacing = 1
         cx.eq('uv[%d]' % k, list(v.uv), [F(i * spacing, ssu - 1), F(j * spacing, ssv - 1)])
         ref = oracles.surface_point_def(sp['degs'][0], sp['degs'][1], info['K'][0], info['K'][1], su, sv, info['P'], info['W'],
                                         cx.const(F(i * spacing, ssu - 1)), cx.const(F(j * spacing, ssv - 1)), cx)
@@ -82,7 +87,7 @@ def h_component_direct(cx, ssu, ssv, spacing, which):
         cx.check('face_ids[%d]' % k, all(0 <= i < len(V) for i in f.data))
 
 
-def h_container(cx, nsurf, set_tessellator):
+def h_container(cx, nsurf, set_tessellator, again=None):
     """SurfaceContainer-level tessellation: consecutive ids, faces in range, every vertex on ITS surface"""
     multi = geo.M('multi')
     T = geo.M('tessellate')
@@ -102,6 +107,24 @@ def h_container(cx, nsurf, set_tessellator):
     if set_tessellator:
         mc.tessellator = T.TriangularTessellate()
     mc.tessellate()
+    if again == 'reset':
+        mc.vertices
+        mc.reset()
+        mc.tessellate()
+    elif again == 'same_sample_size':
+        mc.vertices
+        mc.sample_size_u = mc.sample_size_u
+        mc.tessellate()
+    elif again == 'add':
+        mc.vertices
+        sp = sps[0]
+        sizes = [len(k) - d - 1 for k, d in zip(sp['kvs'], sp['degs'])]
+        P = cx.points('Px_', sizes[0] * sizes[1], 3)
+        o = geo.make_surface(cx, sp['degs'][0], sp['degs'][1], cx.consts(sp['kvs'][0]), cx.consts(sp['kvs'][1]), sizes[0], sizes[1], P, None, normalize_kv=True)
+        mc.add(o)
+        objs.append(o)
+        infos.append((sp, sizes, P))
+        mc.tessellate()
     V, Fc = mc.vertices, mc.faces
     counts = [len(o.vertices) for o in objs]
     fcounts = [len(o.faces) for o in objs]
@@ -347,6 +370,11 @@ def instances(tier):
     for nsurf in (1, 2, 3):
         for st in (False, True):
             out.append(inst('container %d surfaces tessellator_set=%s' % (nsurf, st), h_container, timeout=900, nsurf=nsurf, set_tessellator=st))
+    for again in ('reset', 'same_sample_size', 'add'):
+        out.append(inst('container 2 surfaces tessellated again after %s' % again, h_container, timeout=900, nsurf=2, set_tessellator=False, again=again))
+    for sp in sps:
+        out.append(inst('%s geometry 3x3 after sub-range evaluate default' % spec_name(sp), h_geometry, timeout=900, sp=sp, ssu=3, ssv=3, spacing=1, tess='default', subrange=True))
+        out.append(inst('%s geometry 3x2 after sub-range evaluate quad' % spec_name(sp), h_geometry, timeout=900, sp=sp, ssu=3, ssv=2, spacing=1, tess='quad', subrange=True))
     tcombos = [(2, 2, 1), (3, 2, 1), (3, 4, 1), (5, 3, 2), (4, 4, 3), (6, 5, 1), (5, 5, 2)]
     if not quick:
         tcombos += [(9, 7, 2), (8, 8, 1), (9, 9, 4), (7, 4, 3)]
